@@ -93,6 +93,13 @@ class OptimizeAnalysis:
         for x in ast.walk(node):
             if isinstance(x, ast.Attribute) and isinstance(x.ctx, ast.Store) and x.attr == "pose":
                 return True
+            # element writes into a pose:  v.pose[...] = / op=
+            if isinstance(x, ast.Subscript) and isinstance(x.ctx, ast.Store):
+                b = x.value
+                while isinstance(b, (ast.Subscript, ast.Attribute)):
+                    if isinstance(b, ast.Attribute) and b.attr == "pose":
+                        return True
+                    b = b.value
         return False
 
     def _call_effects(self, call):
@@ -106,7 +113,7 @@ class OptimizeAnalysis:
         callee = k[1][0]
         evs = self.an.effects(callee)
         stores_chi2 = any(e.kind == "AttrStore" and path_str(e.path) == "self._chi2" for e in evs)
-        stores_pose = any(e.kind == "AttrStore" and last_attr(e.path) == "pose" and
+        stores_pose = any(e.kind in ("AttrStore", "ElemStore", "MutCall", "AugName") and ".pose" in e.path[1:] and
                           not (e.fn.name == "_calc_jacobian" and getattr(e.fn, "_gs_class", None) == "BaseEdge") for e in evs)
         written, exposed = self_reads_writes(self.pkg, callee)
         return callee, stores_chi2, stores_pose, written, exposed
